@@ -264,11 +264,11 @@ def domain_events(w, cfg):
         os.makedirs(d)
         names.append(f"p{k}")
         md = f'USE="{" ".join(itext(t) for t in n["use"])}"\n'
-        if k == 0:
+        if not n["parents"]:
             md = f'ARCH="{cfg["arch"]}"\nACCEPT_KEYWORDS="{cfg["arch"]}"\n' + md
         else:
             with open(os.path.join(d, "parent"), "w") as f:
-                f.write(f"../p{k-1}\n")
+                f.write("".join(f"../p{j - 1}\n" for j in n["parents"]))  # parents are 1-based node indices
         with open(os.path.join(d, "make.defaults"), "w") as f:
             f.write(md)
         for fname, key in (("package.use", "pkguse"), ("package.use.force", "pkgforce"), ("package.use.mask", "pkgmask")):
@@ -350,6 +350,14 @@ def rand_line(r_):
             return toks
 
 
+def rand_parents(r_, k):
+    """Parents (1-based indices of earlier nodes) of node k: chains, forks and diamonds."""
+    if k == 1:
+        return []
+    n = 1 if r_.random() < 0.55 else 2
+    return r_.sample(range(1, k), min(n, k - 1))
+
+
 def rand_cfg(r_):
     atoms = ["any_a", "eq_a1", "ge_a2", "any_b", "any_c"]
 
@@ -363,8 +371,8 @@ def rand_cfg(r_):
                 out.append(e)
         return out
 
-    nodes = [dict(use=rand_stream(r_, 3), pkguse=ents(3, True), pkgforce=ents(2, False), pkgmask=ents(2, False),
-                  force=rand_np(r_, 0.12), mask=rand_np(r_, 0.12)) for _ in range(r_.randint(1, 3))]
+    nodes = [dict(parents=rand_parents(r_, k), use=rand_stream(r_, 3), pkguse=ents(3, True), pkgforce=ents(2, False),
+                  pkgmask=ents(2, False), force=rand_np(r_, 0.12), mask=rand_np(r_, 0.12)) for k in range(1, r_.randint(1, 4) + 1)]
     return dict(nodes=nodes, conf=rand_stream(r_, 4), arch="amd64",
                 user=[dict(sc=r_.choice(sorted(SCOPES)), toks=rand_line(r_)) for _ in range(r_.randint(0, 5))])
 
@@ -444,8 +452,8 @@ def run(ck):
     ck.rule = ("histories of new/add_bare_global/add/update_from_stream/merge/freeze/clone/optimize over a pool of stacks "
                "(TLC-simulated and seeded random), every live stack rendered for 4 packages x 2 default sets after every "
                "step; every sequence of <= N entries through _build_cp_atom_payload (TLC-enumerated) plus random longer "
-               "ones; random user package.use lines and whole domains (profile stack + USE + package.use + use.force/mask "
-               "layers); non-trivial = distinct history holding a reset (-* / -p_*) or a merge/clone/optimize, distinct "
+               "ones; random user package.use lines and whole domains (profile inheritance graphs with forks and diamonds + "
+               "USE + package.use + use.force/mask layers); non-trivial = distinct history holding a reset (-* / -p_*) or a merge/clone/optimize, distinct "
                "collapse sequence of >= 2 non-empty entries, distinct line / domain configuration")
     ck.assumptions = [
         "an entry never enables and disables the same flag; wildcards are only negated; frozen stacks are not mutated",
@@ -462,7 +470,7 @@ def run(ck):
         else:
             case = d["case"]
             evs = [collapse_event(w, case)] if case["ev"] == "collapse" else domain_events(w, case["cfg"]) if case["ev"] == "domain" \
-                else domain_events(w, dict(nodes=[dict(use=[], pkguse=[], pkgforce=[], pkgmask=[], force=dict(neg=[], pos=[]),
+                else domain_events(w, dict(nodes=[dict(parents=[], use=[], pkguse=[], pkgforce=[], pkgmask=[], force=dict(neg=[], pos=[]),
                                                         mask=dict(neg=[], pos=[]))], conf=[], arch="amd64",
                                            user=[dict(sc="glob", toks=case["toks"])]))
             for n, e in enumerate(evs):
